@@ -156,7 +156,10 @@ def run(tier):
         q['dir'] = d
         q['account_path'] = '%s/%s.account.bin' % (d, base64.urlsafe_b64encode(q['account_name'].encode()).decode().rstrip('='))
     rc, recs, err = C.probe('storehist', reqs, timeout=1800)
-    if rc != 0:
+    if rc == 64:
+        chk.inconclusive.append('storage probe unavailable: %s' % err)
+        reqs, recs = [], []
+    elif rc != 0:
         raise C.Inconclusive('storehist probe failed rc=%s: %s' % (rc, err[-300:]))
     for q, rec in zip(reqs, recs):
         chk.evaluations += 1
